@@ -422,6 +422,8 @@ fn build_enum(
 
     let syn_fields = fields.iter().enumerate().map(|(idx, (name, value))| {
         let name_ident = str_to_ident(name);
+        // An `isize` literal would overflow on targets with 32-bit pointers for values like 0x8000_0000.
+        let value = *value as i64;
         let field = quote! {
             #name_ident = #value as _
         };
